@@ -209,6 +209,12 @@ func (s *scn) locate(files map[string]string, calls []*call, detail func() map[s
 	for _, name := range sortedKeys(files) {
 		p := parseLog(name, files[name])
 		out[name] = p
+		if s.ownDiag {
+			s.c.Max("max_open_failure_own_diagnostic_lines_in_one_file", int64(len(p.notok)))
+		} else if len(p.notok) > 0 {
+			// in the order of the file
+			p.junk = mergeByLine(p.junk, p.notok)
+		}
 		if len(p.junk) > 0 {
 			d := detail()
 			d["file"] = name
@@ -403,6 +409,24 @@ func briefCalls(calls []*call, max int) []map[string]interface{} {
 			break
 		}
 		out = append(out, cl.brief())
+	}
+	return out
+}
+
+// mergeByLine merges two lists of "line N ..." remarks by N (entries without a number first).
+func mergeByLine(a, b []string) []string {
+	num := func(x string) int {
+		var n int
+		if _, err := fmt.Sscanf(x, "line %d", &n); err != nil {
+			return -1
+		}
+		return n
+	}
+	out := append(append([]string{}, a...), b...)
+	for i := 1; i < len(out); i++ {
+		for j := i; j > 0 && num(out[j]) < num(out[j-1]); j-- {
+			out[j], out[j-1] = out[j-1], out[j]
+		}
 	}
 	return out
 }
